@@ -36,6 +36,14 @@ fn main() {
         "C05-closure-cli" => vcore::props::closure::run_c05_cli(&args, &mut rep),
         "C10-closure" => vcore::props::closure::run_c10_component(&args, &mut rep),
         "C17" => vcore::props::c17::run(&args, &mut rep),
+        "C14" => vcore::props::c14::run(&args, &mut rep),
+        "C03-sessions" => vcore::props::c03::run_sessions(&args, &mut rep),
+        "C03-lean" => vcore::props::c03::run_lean(&args, &mut rep),
+        "C03-components" => vcore::props::c03::run_components(&args, &mut rep),
+        "canary" => {
+            vcore::props::c03::canary(args.extra.first().map(|s| s.as_str()).unwrap_or(""));
+            return;
+        }
         "C04-direct" => vcore::props::c04::run_direct(&args, &mut rep),
         "C04-cli" => vcore::props::c04::run_cli(&args, &mut rep),
         other => {
